@@ -416,6 +416,144 @@ def s_units_population(ctx):
         u.mismatches.append(dict(case=cases[i], note="a population member's evaluate differs from the model (or the member recorded another position than the one evaluated)"))
 
 
+POP_ITER = ["ParticleSwarmOptimizer", "SpiralOptimization", "DifferentialEvolutionOptimizer"]
+POP_HDR = ("Require Import Converter CoreOpt Pop.\n"
+           "Definition pe := list_eqb Z.eqb.\n"
+           "Definition it_ok (r : res (pos * tape * Z)) (p : pos) (n : option Z) : bool := match r with Ok (q, [], m) => pe q p && "
+           "match n with Some k => m =? k | None => true end | _ => false end.\n")
+
+
+def _rot(vec):
+    """pop_opt/_spiral.roation, re-implemented: 1-D gives the scalar -1, otherwise the cyclic shift matrix with a -1 corner"""
+    n = len(vec)
+    if n == 1:
+        return -1
+    R = np.zeros((n, n))
+    for i in range(1, n):
+        R[i, i - 1] = 1.0
+    R[0, n - 1] = -1.0
+    return np.matmul(R, vec)
+
+
+def xr_list(v):
+    return clist([float(x) for x in np.asarray(v, dtype=float).ravel()], xr_lit)
+
+
+def s_units_pop_iterate(ctx):
+    """every iteration step of ParticleSwarm / Spiral / DifferentialEvolution runs against theories/Pop.v: from the observed
+    pre-state, the logged draws and the float vector recomputed by the harness (the model's oracle), the model must return
+    the observed position, consume every draw and make the same number of constraint evaluations"""
+    u = ctx.unit("S:iterate (particle swarm, spiral, differential evolution)", "S",
+                 "every iteration step of real runs (populations 4-6, coupled constraints -- parity / band / half-space -- to "
+                 "force the fallback paths, rand_rest_p up to 0.5, varied hyper-parameters): the model's pso_iterate / "
+                 "spiral_iterate / de_iterate with the logged draws and the harness-recomputed float vector (new velocity, spiral "
+                 "point, mutant) must return the observed position, leave no draw and count the same constraint evaluations; "
+                 "non-trivial = the first candidate was infeasible or a random restart happened; distinct by (optimizer, seed, step)")
+    from props import c02
+    rng = ctx.sub_rng("popit")
+    lits, cases = [], []
+    n = 18 if ctx.quick else 150
+    specs = c02.coupled_specs(ctx, 4 * n)
+    specs = [sp_ for sp_ in specs if sp_["name"] in POP_ITER][:n]
+    for spec in specs:
+        name = spec["name"]
+        spec = dict(spec, pop_oracles=True, steps_api=True)
+        spec["calls"] = [dict(spec["calls"][0], n_iter=rng.choice([24, 36]))]
+        cfg = dict(spec.get("cfg") or {})
+        cfg.update({k: v for k, v in gen.gen_opt_config(rng, name, spec["space"]).items() if k not in ("population",)})
+        if rng.random() < 0.5:
+            cfg["rand_rest_p"] = rng.choice([0.1, 0.5])
+        spec["cfg"] = cfg
+        if rng.random() < 0.25:
+            spec["feasible"] = None
+        out = instr.run_steps(spec, rnglog=True, keep_valid=False, per_step_s=10)
+        if out["opt"] is None or out["exc"] is not None:
+            ctx.blocked.append(dict(spec=dunit.spec_brief(spec), exc=out["exc"][:2] if out["exc"] else None))
+            continue
+        opt = out["opt"]
+        members = list(opt.optimizers)
+        P = len(members)
+        sp, cl, vs = space_lits(spec["space"], spec.get("feasible"))
+        nd = len(spec["space"])
+        prev = None
+        for st in out["steps"]:
+            cur = st["states"]
+            if st["is_init"] or prev is None:
+                prev = cur
+                continue
+            split = st["rng_split"] if st["rng_split"] is not None else len(st["rng"])
+            r_it = list(st["rng"][:split])
+            i = prev["self"]["nth_trial"] % P
+            who = "member%d" % i
+            mem = members[i]
+            rrp = dyadic(float(mem.rand_rest_p))
+            ncon = len(st["con_args"]) if spec.get("feasible") is not None else None
+            caps = [e for e in r_it if e[0] == "capture"]
+            draws = [e for e in r_it if e[0] != "capture"]
+            call = None
+            try:
+                if name == "ParticleSwarmOptimizer":
+                    c = caps[0][3]
+                    # tape: uniform; [r1; r2; velocity oracle] unless the random restart was taken; then the fallback's draws
+                    tape = draw_lit(*draws[0][:2], draws[0][3])
+                    rest = draws[1:]
+                    if len(rest) >= 2 and rest[0][1] == "random" and rest[1][1] == "random" and not (c["rrp"] > draws[0][3]):
+                        r1, r2 = rest[0][3], rest[1][3]
+                        A = c["inertia"] * np.array(c["velo"])
+                        B = c["cw"] * r1 * np.subtract(np.array(c["pos_best"]), np.array(c["pos_current"]))
+                        C = c["sw"] * r2 * np.subtract(np.array(c["global_pos_best"]), np.array(c["pos_current"]))
+                        with np.errstate(all="ignore"):
+                            velo = A + B + C
+                        tape += draw_lit("", "", r1) + draw_lit("", "", r2) + [x for v in velo for x in draw_lit("", "", float(v))]
+                        rest = rest[2:]
+                    for e in rest:
+                        tape += draw_lit(e[0], e[1], e[3])
+                    call = "pso_iterate %s %s 3000 (%s, %s) %s [%s]" % (sp, cl, cz(rrp[0]), cz(rrp[1]), clist([int(x) for x in c["pos_current"]]), "; ".join(tape))
+                elif name == "SpiralOptimization":
+                    c = caps[0][3]
+                    tape = draw_lit(*draws[0][:2], draws[0][3])
+                    rest = draws[1:]
+                    if not (c["rrp"] > draws[0][3]):
+                        df = c["decay_factor"] * c["decay_rate"]
+                        with np.errstate(all="ignore"):
+                            step_rate = df * np.array(c["max_positions"]) / 1000
+                            rot = _rot(np.subtract(np.array(c["pos_current"]), np.array(c["center"])))
+                            new_pos = np.array(c["center"]) + np.multiply(step_rate, rot)
+                        tape += [x for v in new_pos for x in draw_lit("", "", float(v))]
+                    for e in rest:
+                        tape += draw_lit(e[0], e[1], e[3])
+                    call = "spiral_iterate %s %s 3000 (%s, %s) [%s]" % (sp, cl, cz(rrp[0]), cz(rrp[1]), "; ".join(tape))
+                else:
+                    samp = draws[0]
+                    idx = samp[3]
+                    if not (samp[1] == "sample" and isinstance(idx, list) and len(idx) == 3):
+                        raise ValueError("first draw of DE.iterate is not random.sample(individuals, 3): %r" % (samp,))
+                    xs = [np.array(prev["member%d" % j]["pos_best"]) for j in idx]
+                    with np.errstate(all="ignore"):
+                        mutant = xs[0] + opt.mutation_rate * np.subtract(xs[1], xs[2])
+                    tape = ["DZ %d" % j for j in idx] + [x for v in mutant for x in draw_lit("", "", float(v))]
+                    for e in draws[1:]:
+                        tape += draw_lit(e[0], e[1], e[3])
+                    target = prev[who]["pos_new"]
+                    call = "de_iterate %s %s 3000 %s %s [%s]" % (sp, cl, cz(P), clist(target), "; ".join(tape))
+            except Exception as e:       # the pre-state does not have the shape the model assumes: a correspondence failure
+                u.mismatches.append(dict(case=dict(optimizer=name, spec=dunit.spec_brief(spec), step=(st["call"], st["k"])),
+                                         note="cannot build the model's input from the observed step: %s: %s" % (type(e).__name__, e)))
+                prev = cur
+                continue
+            lits.append("(it_ok (%s) %s %s)" % (call, clist(st["pos"]), copt(ncon)))
+            cases.append(dict(optimizer=name, spec=dunit.spec_brief(spec), step=(st["call"], st["k"]), member=who, pos=st["pos"], ncon=ncon,
+                              draws=jsonable([e for e in r_it if e[0] != "capture"]), capture=jsonable(caps[0][3]) if caps else None))
+            u.count((name, spec["seed"], st["call"], st["k"]), nontrivial=(ncon or 0) > 1 or len(draws) > (3 + nd))
+            u.bump(name)
+            prev = cur
+    u.samples = cases[:3]
+    failing, err = coq_eval_cases(u.name, POP_HDR, "bool", lits, "fun b => b", shard=60)
+    u.error = err
+    for i in failing[:10]:
+        u.mismatches.append(dict(case=cases[i], note="the population optimizer's iterate differs from the model (theories/Pop.v)"))
+
+
 def pre_build_tracker(ctx):
     """Regenerate generated/TrackerGen.v from /repo's source before the Coq build (C15, C19)."""
     import translate_core
@@ -454,3 +592,5 @@ def run(ctx, which="ALL"):
     s_units(ctx, which)
     if which in ("C19", "ALL"):
         s_units_population(ctx)
+    if which in ("C01", "C02", "C08", "ALL"):
+        s_units_pop_iterate(ctx)
